@@ -42,6 +42,7 @@ pub fn source_cfg(g: &mut Rng, min_items: bool) -> ProgCfg {
         max_points_knob_off: 0,
         custom_xml: false,
         small: false,
+        big_permille: 10,
     }
 }
 
@@ -236,7 +237,7 @@ impl Prop for C17 {
     }
     fn plan(&self, tier: Tier) -> Plan {
         match tier {
-            Tier::Quick => Plan { runs: 6000, time_box_s: None, isolation: Isolation::Threads },
+            Tier::Quick => Plan { runs: 16000, time_box_s: None, isolation: Isolation::Threads },
             Tier::Thorough => Plan { runs: 1_000_000, time_box_s: Some(420), isolation: Isolation::Threads },
         }
     }
